@@ -96,11 +96,12 @@ var propRules = map[string]*PropSpec{
 		Technique:  techErr + "; affine size expressions over go/ssa",
 	},
 	"C06": {
-		Rules:       []string{"L1", "L2", "L5", "L6", "B5", "B1", "U3", "PT2", "A8", "R1", "B7"},
+		Rules:       []string{"L1", "L2", "L5", "L6", "B5", "B1", "U3", "PT2", "A8", "R1", "B7", "L8"},
 		Explanation: explBase + " C06: format constants, header predicate, payload sizes and byte order are compared with the published RoaringFormatSpec values transcribed in the model.",
 		Decided: []string{
 			"ToBytes/MarshalBinary results are not backed by pooled memory",
 			"no decoder drops one of its parameters (a pre-read cookie header is forwarded)",
+			"a run list taken from the input is looked at (merged or rejected) before it is adopted — a known finding on this tree: it is adopted verbatim",
 			"the stream adapter fills every read completely (io.ReadAtLeast) and bounds-checks every slice it hands out, so short reads of a conformant stream are not misparsed",
 			"cookies 12347/12346, noOffsetThreshold 4, array/bitmap threshold 4096, bitmap payload 8192 bytes, run element 4 bytes", "offset header present iff no-run cookie or N >= 4, in size prediction, writer and reader", "offset-header increments equal payload sizes per kind", "all multi-byte fields little-endian"},
 		NotDecided: []string{"that an independent decoder recovers exactly the set", "ascending keys (follows from C09)", "cardinality-minus-one field arithmetic beyond the affine check"},
